@@ -1033,3 +1033,129 @@ def check_wrapper_no_direct_stats(run, ctx, rule='C15-W2'):
         else:
             run.ok(rule, w.path, 'no statistics call in the wrapper')
     return n
+
+
+# ------------------------------------------------------------------------------------------------
+# thorough tier: the repository's own decorated functions (no attribute expectations available)
+# ------------------------------------------------------------------------------------------------
+class RepoWrap(Wrap):
+    """a decorated function of the repository's tests / examples: parameters from its signature, predicates inferred
+    (a call in the wrapper, outside the body closure, to a non-library function whose first argument is the key)"""
+
+    def __init__(self, ctx, crate, root):
+        self.ctx = ctx
+        self.prog = ctx.u5_prog
+        self.is_async = root.kind == 'coroutine'
+        self.body = root
+        self.fn = self.prog.bodies.get(root.parent) if self.is_async else root
+        self.path = (self.fn.name if self.fn else root.name)
+        self.crate = crate.name
+        self._ex = None
+        nin = len(self.fn.js.get('inputs') or []) if self.fn else 0
+        self.e = {'macro': 'async' if self.is_async else 'sync', 'params': ['?'] * nin, 'receiver': None, 'cache_if': None, 'invalidate_on': None,
+                  'family': 'repo', 'attrs': [], 'ret': ''}
+        self._pred_blocks = {}
+        self._infer_predicates()
+
+    def _infer_predicates(self):
+        reach = Spec(self.prog, self.body, {}).reachable_blocks()
+        gets = [(b, t) for b, t in self.body.calls() if b in reach and any(callee_name(t) == adt + '::get' for adt in N.CACHE_ADTS)]
+        if len(gets) != 1:
+            return
+        key = _unclone(self.ex.operand(gets[0][1]['args'][1]))
+        for b, t in self.body.calls():
+            if b not in reach:
+                continue
+            cn = callee_name(t)
+            if cn.startswith(('core::', 'alloc::', 'std::', 'cachelito_core::', 'once_cell::', 'parking_lot::', 'dashmap::', 'lock_api::')) or len(t['args']) != 2:
+                continue
+            if not t['callee'].get('id'):
+                continue
+            a0 = _unclone(self.ex.operand(t['args'][0]))
+            if a0 != key:
+                continue
+            a1 = self.ex.operand(t['args'][1])
+            kind = 'pred:invalidate_on' if _is_cached(a1, gets[0][0]) else 'pred:cache_if'
+            self._pred_blocks[b] = kind
+            self.e[kind.split(':')[1]] = cn
+
+    def classify(self, t):
+        k = Wrap.classify(self, t)
+        if k:
+            return k
+        for b, kind in self._pred_blocks.items():
+            if self.body.term(b) is t:
+                return kind
+        return None
+
+    def selected(self):
+        sp = Spec(self.prog, self.body, {})
+        return sp.reachable_blocks()
+
+
+def repo_wrappers(ctx):
+    if not hasattr(ctx, '_repo_wrappers'):
+        ctx.u5_generated()
+        ws = []
+        for crate, root in ctx._u5roots:
+            try:
+                ws.append(RepoWrap(ctx, crate, root))
+            except Exception:
+                continue
+        ctx._repo_wrappers = ws
+    return ctx._repo_wrappers
+
+
+def check_repo_wrappers(run, ctx, rules):
+    """apply the expectation-free wrapper rules to the repository's own decorated functions (thorough tier):
+    flow scenarios (C03/C10/C11), key builder coverage (C02), dataflow (C01)"""
+    saved_rows = getattr(ctx, '_wrap_rows', None)
+    saved_ws = getattr(ctx, '_wrappers', None)
+    try:
+        ctx._wrappers = repo_wrappers(ctx)
+        if hasattr(ctx, '_wrap_rows'):
+            del ctx._wrap_rows
+        n0 = len(run.instances)
+        if 'C01' in rules:
+            check_wrapper_dataflow(run, ctx, 'C01-W1')
+        if 'C02' in rules:
+            _repo_key_builder(run, ctx)
+        flow = tuple(r for r in rules if r in ('C03', 'C10', 'C11'))
+        if flow:
+            check_wrapper_flow(run, ctx, rules=flow)
+        run.note('repository-own decorated functions judged: %d wrappers, %d more instances' % (len(ctx._wrappers), len(run.instances) - n0))
+        return len(ctx._wrappers)
+    finally:
+        if saved_rows is not None:
+            ctx._wrap_rows = saved_rows
+        elif hasattr(ctx, '_wrap_rows'):
+            del ctx._wrap_rows
+        if saved_ws is not None:
+            ctx._wrappers = saved_ws
+
+
+def _repo_key_builder(run, ctx):
+    for (w, sites, res) in wrapper_scenarios(ctx):
+        if w.body is None or not sites or len(sites.get('get', [])) != 1:
+            continue
+        gb, gt = sites['get'][0]
+        key = w.ex.operand(gt['args'][1])
+        parts, sep, probs = _key_parts(w, key)
+        nparams = len(w.e['params'])
+        want_kind = 'debug' if w.is_async else 'cache_key'
+        srcs = []
+        for p in parts:
+            kind, src = _part_source(w, p)
+            if kind != want_kind:
+                probs.append('a key part is rendered with %s: %s' % (kind, show(p)))
+            srcs.append(src)
+        want = [w.param_expr(i) for i in range(1, nparams + 1)]
+        if srcs != want:
+            probs.append('key parts come from %s, expected each parameter once in order %s' % ([show(s) for s in srcs], [show(x) for x in want]))
+        if nparams >= 2 and (sep is None or sep == '' or any(ch in SAFE_SEP_FORBIDDEN for ch in sep)):
+            probs.append('unsafe or missing separator %r' % sep)
+        if probs:
+            run.bad('C02-W1', 'repo-own/%s/key-builder' % ('cache_async' if w.is_async else 'cache'), 'key of %s: %s' % (w.path, '; '.join(probs)), site=w.path,
+                    oracle='one rendered part per parameter, in order, joined by a safe separator')
+        else:
+            run.ok('C02-W1', 'repo-own/' + w.path, '%d part(s)' % len(parts))
